@@ -15,7 +15,7 @@ CONSTANTS
   FullStropKey = TRUE
   Docs = {0, 1}
   PureFilters = TRUE
-  Confs = {0}
+  Confs = {0, 1}
   PureDerivedNames = TRUE
 INVARIANT Emit
 CHECK_DEADLOCK FALSE
